@@ -232,6 +232,10 @@ def run(rep: Report, tier: str):
                         # must be a fresh computation (recomputing more often than needed is harmless;
                         # copying some other stored value is not)
                         fresh = isinstance(val, ast.Call)
+                        if isinstance(val, ast.Name):
+                            # a local bound (only) to a fresh computation in this very function
+                            binds = [m.value for m in body_walk(f.node) if isinstance(m, ast.Assign) and any(isinstance(t, ast.Name) and t.id == val.id for t in m.targets)]
+                            fresh = bool(binds) and all(isinstance(b, ast.Call) for b in binds) and val.id not in f.params()
                         if fresh:
                             rep.ok("C14.single-writer", f.qualname, f"self.{a} = {src(val)} (fresh computation)", f"{f.file}:{n.lineno}")
                         else:
